@@ -40,11 +40,14 @@ pub struct Gen {
     pub rng: Rng,
     /// chains longer than concat.rs's limit are produced with this probability (per tree, in 1/100)
     pub long_pct: u64,
+    /// also put children that report sample-group pairs below `ForceFlag` / `WithDimensions` flattens
+    /// (off by default: metrique-core's forwarding impls for these two drop `sample_group`, see notes/C07.md DEFECT)
+    pub wrapper_sample_groups: bool,
 }
 
 impl Gen {
     pub fn new(rng: Rng) -> Gen {
-        Gen { rng, long_pct: 20 }
+        Gen { rng, long_pct: 20, wrapper_sample_groups: false }
     }
 
     /// an ASCII Rust identifier (also the alphabet of everything that gets inflected)
@@ -310,7 +313,7 @@ impl Gen {
         Field::FlattenEntry { items, sg }
     }
 
-    fn flatten(&mut self, depth: usize, long: bool, stems: &mut BTreeSet<String>) -> Field {
+    fn flatten(&mut self, depth: usize, by_value: bool, long: bool, stems: &mut BTreeSet<String>) -> Field {
         let pfx = loop {
             let p = self.opt_pfx(false, long);
             match &p {
@@ -324,7 +327,25 @@ impl Gen {
         };
         let optional = self.rng.chance(1, 4);
         let present = !optional || self.rng.chance(2, 3);
-        Field::Flatten { pfx, optional, present, child: Box::new(self.def(depth - 1, false, long)) }
+        let child = self.def(depth - 1, false, long);
+        // how the field holds the child: half of the flattens go through a forwarding impl / CloseValue impl
+        let mut wrap = if self.rng.chance(1, 2) {
+            Wrap::Owned
+        } else {
+            *self.rng.pick(&Wrap::ALL[1..])
+        };
+        if wrap.by_value_only() && !by_value {
+            wrap = *self.rng.pick(&[Wrap::Ref, Wrap::Box, Wrap::Arc, Wrap::Cow, Wrap::Mutex, Wrap::StdArc]);
+        }
+        if wrap.drops_sample_group() && !self.wrapper_sample_groups && reports_sample_group(&child) {
+            wrap = *self.rng.pick(&[Wrap::Ref, Wrap::Box, Wrap::Arc, Wrap::Cow]);
+        }
+        let mut child = child;
+        if wrap.needs_clone() {
+            // everything below a Cow is `#[derive(Clone)]`: no `Mutex` fields there
+            demutex(&mut child);
+        }
+        Field::Flatten { pfx, optional, wrap, present, child: Box::new(child) }
     }
 
     /// fields of a struct or struct variant
@@ -336,7 +357,7 @@ impl Gen {
             let k = self.rng.below(20);
             out.push(match k {
                 0..=9 => self.plain(&mut used, root),
-                10..=14 if depth > 0 => self.flatten(depth, long, stems),
+                10..=14 if depth > 0 => self.flatten(depth, root, long, stems),
                 15 if allow_ignore => Field::Ignore,
                 16 => Field::Timestamp,
                 17 => self.raw_entry(),
@@ -387,7 +408,7 @@ impl Gen {
                             fs.push(match self.rng.below(6) {
                                 0 => Field::Ignore,
                                 1 => self.raw_entry(),
-                                _ if depth > 0 => self.flatten(depth, long, &mut stems),
+                                _ if depth > 0 => self.flatten(depth, root, long, &mut stems),
                                 _ => self.raw_entry(),
                             });
                         }
@@ -407,6 +428,41 @@ impl Gen {
         let long = self.rng.below(100) < self.long_pct;
         let depth = if long { max_depth.max(2) } else { self.rng.range(0, max_depth as u64) as usize };
         self.def(depth, true, long)
+    }
+}
+
+fn demutex(d: &mut Def) {
+    fn fields(fs: &mut [Field]) {
+        for f in fs {
+            if let Field::Flatten { wrap, child, .. } = f {
+                if *wrap == Wrap::Mutex {
+                    *wrap = Wrap::StdArc;
+                }
+                demutex(child);
+            }
+        }
+    }
+    match d {
+        Def::Struct { fields: fs, .. } => fields(fs),
+        Def::Enum { variants, .. } => variants.iter_mut().for_each(|v| fields(&mut v.fields)),
+    }
+}
+
+/// may any instance of the tree report a sample-group pair (own field, tag or `flatten_entry`)?
+pub fn reports_sample_group(d: &Def) -> bool {
+    fn fields(fs: &[Field]) -> bool {
+        fs.iter().any(|f| match f {
+            Field::Plain { sg, .. } => *sg,
+            Field::Flatten { child, .. } => reports_sample_group(child),
+            Field::FlattenEntry { sg, .. } => !sg.is_empty(),
+            _ => false,
+        })
+    }
+    match d {
+        Def::Struct { fields: fs, .. } => fields(fs),
+        Def::Enum { tag, variants, .. } => {
+            tag.as_ref().map(|t| t.sg).unwrap_or(false) || variants.iter().any(|v| fields(&v.fields))
+        }
     }
 }
 
